@@ -224,7 +224,7 @@ Proof.
 Qed.
 
 (* the merge-sorted list of a tip contains exactly its present ancestors *)
-Theorem merge_sorted_ids g t x : wf_dag g = true -> t < length g ->
+Theorem merge_sorted_ids g (t : revid) x : wf_dag g = true -> t < length g ->
   (In x (ms_ids (merge_sorted g (Some t))) <-> reach g x t /\ x < length g).
 Proof.
   intros W L. unfold merge_sorted, present. rewrite (proj2 (Nat.ltb_lt t (length g)) L).
@@ -261,7 +261,7 @@ Lemma NoDup_ancestors g t : NoDup (ancestors g [t]).
 Proof. apply NoDup_close_down. constructor; [intros [] | constructor]. Qed.
 
 (* every (present) revision of the tip's ancestry exactly once *)
-Theorem merge_sorted_perm g t : wf_dag g = true -> t < length g ->
+Theorem merge_sorted_perm g (t : revid) : wf_dag g = true -> t < length g ->
   Permutation (ms_ids (merge_sorted g (Some t))) (filter (present g) (ancestors g [t])).
 Proof.
   intros W L. apply NoDup_Permutation.
@@ -333,7 +333,7 @@ Proof.
     cbn [app]. rewrite Hs1. apply IH; [lia | exact Lp | exact Pp | exact E1].
 Qed.
 
-Theorem depth0_is_lefthand g t : wf_dag g = true -> t < length g -> lefthand_present g t = true ->
+Theorem depth0_is_lefthand g (t : revid) : wf_dag g = true -> t < length g -> lefthand_present g t = true ->
   map e_id (depth0 (merge_sorted g (Some t))) = lefthand g t.
 Proof.
   intros W L P. unfold merge_sorted, present. rewrite (proj2 (Nat.ltb_lt t (length g)) L).
@@ -399,7 +399,7 @@ Proof.
 Qed.
 
 (* the merge-sorted list starts at depth 0 and a step goes up by at most one *)
-Theorem merge_sorted_steps g t : wf_dag g = true -> t < length g ->
+Theorem merge_sorted_steps g (t : revid) : wf_dag g = true -> t < length g ->
   steps (merge_sorted g (Some t)) /\
   match merge_sorted g (Some t) with [] => False | h :: _ => e_depth h = 0 end.
 Proof.
